@@ -102,7 +102,8 @@ def gen_plan(wl, fr, idx):
     plan['faults'] = {'interrupts': plan['config'] == 'sequential' and wl.random() < 0.35,
                       'natural': wl.random() < 0.3}
     plan['repeat'] = wl.random() < 0.5
-    plan['yield'] = [wl.choice((1, 2, 4)), 8]
+    plan['granularity'] = 'line' if wl.random() < 0.3 else 'seam'
+    plan['yield'] = [wl.choice((1, 2, 4)), 8] if plan['granularity'] == 'seam' else [1, wl.choice((50, 150, 400))]
     plots = plan['config'] == 'sequential' and wl.random() < 0.3
     plan['sessions'] = [_gen_session(wl, plan, s, plots) for s in range(nsess)]
     plan['sim'] = gen_sim_cfg(fr, 4)
@@ -640,12 +641,14 @@ def execute(plan, tape):
                 baton.in_call[s] = True
             arm = None
             if interrupts and tape.chance(1, 4, 'interrupt?'):
-                arm = 1 + tape.choose(60, 'interrupt-at')
+                arm = 1 + tape.choose(900 if plan.get('granularity') == 'line' else 60, 'interrupt-at')
             sess.run_op(s, n, op, arm=arm)
         if baton is not None:
             baton.in_call[s] = False
 
-    with quiet(), pristine.active(), Installed(sim), seams.activate(ctl):
+    from .core import REPO
+    line_root = REPO if plan.get('granularity') == 'line' else None
+    with quiet(), pristine.active(), Installed(sim), seams.activate(ctl, line_root):
         if plan['config'] == 'interleaved' and len(plan['sessions']) > 1:
             baton = seams.Baton(tape, len(plan['sessions']))
             ctl.baton = baton
@@ -688,6 +691,9 @@ def execute(plan, tape):
     res.stats['fault.natural_failure'] += sum(1 for h in hist if len(h) == 4 and h[3] == 'raise')
     res.stats['fault.interleaving'] += 1 if baton is not None else 0
     res.stats['config.' + plan['config']] += 1
+    res.stats['granularity.' + plan.get('granularity', 'seam')] += 1
+    if ctl.tracer is not None:
+        res.stats['line_events'] += ctl.tracer.lines
     res.stats['seam_hits'] += ctl.hits
     res.stats['pool_seam_hits'] += sim.seam_hits
     res.stats.update(sim.stats)
